@@ -755,7 +755,8 @@ func (fr *Frame) rangeInit(ins *ssa.Range, st *State) {
 	ri.n = e.card(ks, ri.dom0)
 	ri.keyAt = sym("keyAt$" + id)
 	ri.idxOf = sym("idxOf$" + id)
-	vc.decls = append(vc.decls, fmt.Sprintf("(declare-fun %s (Int) %s)", ri.keyAt, ks), fmt.Sprintf("(declare-fun %s (%s) Int)", ri.idxOf, ks))
+	vc.decl("fn:"+ri.keyAt, fmt.Sprintf("(declare-fun %s (Int) %s)", ri.keyAt, ks))
+	vc.decl("fn:"+ri.idxOf, fmt.Sprintf("(declare-fun %s (%s) Int)", ri.idxOf, ks))
 	// enumeration axioms: keyAt is a bijection between [0,n) and the domain snapshot
 	vc.assume(fmt.Sprintf("(forall ((k %s)) (! (= (select %s k) (and (<= 0 (%s k)) (< (%s k) %s) (= (%s (%s k)) k))) :pattern ((select %s k)) :pattern ((%s k))))", ks, ri.dom0, ri.idxOf, ri.idxOf, ri.n, ri.keyAt, ri.idxOf, ri.dom0, ri.idxOf))
 	vc.assume(fmt.Sprintf("(forall ((j Int)) (! (=> (and (<= 0 j) (< j %s)) (and (= (%s (%s j)) j) (select %s (%s j)))) :pattern ((%s j))))", ri.n, ri.idxOf, ri.keyAt, ri.dom0, ri.keyAt, ri.keyAt))
